@@ -296,38 +296,51 @@ def inv4(rep, mod, table):
     f = find_def(mod, 'AdapterLookupBase._subscribe')
     va = f.args.vararg.arg if f.args.vararg else None
     rep.require(va is not None, '_subscribe has no *required')
-    lps = [lp for lp, d, e in loops_over(f, va) if isinstance(lp, ast.For)]
-    ok = False
-    detail = 'no loop over *%s' % va
-    if len(lps) == 1:
-        lp = lps[0]
-        v = lp.target.id
-        subs = find_all(lp, '%s.subscribe(self)' % v)
-        exits = [n for n in walk_local(lp)
-                 if isinstance(n, (ast.Break, ast.Return, ast.Continue))]
-        guards = []
-        for c, _ in subs:
-            g = shared.stmt_of(c).parent
-            guards.append(norm_src(g.test) if isinstance(g, ast.If) else 'none')
-        # accepted guard: `<ref> not in <refs>` where refs is self._required
-        okg = False
-        for c, _ in subs:
-            g = shared.stmt_of(c).parent
-            if isinstance(g, ast.If):
-                e = match('$ref not in $refs', g.test)
-                if e is not None:
-                    refs = resolve_local(f, e['refs'])
-                    ref = resolve_local(f, e['ref'])
-                    recorded = find_all(g, '$refs[$ref] = $one', 'exec')
-                    okg = match('self._required', refs) is not None and \
-                        match('%s.weakref()' % v, ref) is not None and \
-                        bool(recorded)
-            elif g is lp:
-                okg = True
-        ok = bool(subs) and not exits and okg
-        detail = ('subscribes to every required spec not yet recorded in '
-                  'self._required and records it: subscribe-calls=%d guards=%s '
-                  'early-exits=%d' % (len(subs), guards, len(exits)))
+    from .specsem import iterated, fact_cmp, each_conditions
+    from .sem import nt
+    from ..sympath import summaries, normal
+    E = 'EACH(%s)' % va
+    R = '%s.weakref()' % E
+    probs = []
+    kinds = set()
+    for ps in normal(summaries(f)):
+        its = iterated(ps)
+        if any(i != va for i in its):
+            probs.append('iterates %s' % its)
+            continue
+        if not its:
+            continue
+        subs = [e for e in ps.events if e.kind == 'call' and
+                nt(e.r) == '%s.subscribe(self)' % E]
+        recs = [e for e in ps.events if e.kind == 'store' and
+                isinstance(e.r, ast.Subscript) and nt(e.r.value) == 'self._required'
+                and nt(e.r.slice) == R]
+        known = fact_cmp(ps, R, 'self._required', 'in')
+        if known is None:
+            kinds.add('always')
+            if len(subs) != 1:
+                probs.append('a required spec is not subscribed to')
+        elif known:
+            kinds.add('known')
+            if subs or recs:
+                probs.append('subscribes again to a recorded spec')
+        else:
+            kinds.add('new')
+            if len(subs) != 1 or len(recs) != 1:
+                probs.append('a spec not yet recorded is not subscribed to and '
+                             'recorded (subscribe %d, record %d)' % (len(subs), len(recs)))
+        extra = [c for c in each_conditions(ps, va)
+                 if c not in ('%s in self._required' % R,)]
+        if extra:
+            probs.append('also depends on `%s`' % extra[0][:60])
+    for lp in walk_local(f):
+        if isinstance(lp, ast.For) and \
+                [n for n in walk_local(lp) if isinstance(n, (ast.Break, ast.Return))]:
+            probs.append('the walk over the required specs can end early')
+    ok = not probs and (kinds == {'known', 'new'} or kinds == {'always'})
+    detail = ('subscribes to every required spec not yet recorded in '
+              'self._required and records it') if ok else \
+        {'problems': sorted(set(probs)) or ['path kinds %s' % sorted(kinds)]}
     rep.check('INV-4', 'AdapterLookupBase._subscribe', ok, detail,
               construct='subscribe-all', node=f)
     # changed(): unsubscribe + clear
